@@ -46,7 +46,7 @@ ASSUMPTIONS = [
     "generated commands are deterministic functions of declared inputs and dependency outputs (the property's premise)",
 ]
 
-FAMILIES_QUICK = [("edits", 4), ("alias", 3), ("shift", 3), ("tamper", 4), ("dirs", 6), ("swap", 5), ("shared", 5), ("wipe", 3), ("revert", 6), ("taint", 2), ("disabled", 2), ("nocache", 2)]
+FAMILIES_QUICK = [("edits", 4), ("alias", 3), ("shift", 3), ("tamper", 4), ("dirs", 6), ("swap", 5), ("shared", 5), ("wipe", 3), ("links", 5), ("revert", 6), ("taint", 2), ("disabled", 2), ("nocache", 2)]
 FAMILIES_THOROUGH = [(f, n * 18) for f, n in FAMILIES_QUICK]
 
 
@@ -85,7 +85,7 @@ def run(ctx):
     # --- oracle: real clean build -----------------------------------------------------------------
     n_oracle = n_fail = 0
     for r in recs:
-        deep = set(r["hist"].get("tags", [])) & {"dirs", "swap", "shared", "tamper", "revert", "disabled"}
+        deep = set(r["hist"].get("tags", [])) & {"dirs", "swap", "shared", "tamper", "revert", "disabled", "links"}
         which = "all" if (r["diffs"] or not quick or deep) else "last"
         fails, n = H.clean_oracle(ctx, r["hist"], r["real"], "c01clean", which=which)
         n_oracle += n
